@@ -329,7 +329,12 @@ class Kernel:
     async def shell_handler(self, shell_socket, wire_msg):
         """Handle shell messages."""
 
-        identities, msg = self.deserialize_wire_msg(wire_msg)
+        try:
+            identities, msg = self.deserialize_wire_msg(wire_msg)
+        except (ValueError, IndexError, KeyError) as err:
+            # a malformed or wrongly signed request is dropped; it must not end the session
+            _LOGGER.error("ignoring invalid shell message: %s", err)
+            return
         # _LOGGER.debug("shell received %s: %s", msg.get('header', {}).get('msg_type', 'UNKNOWN'), msg)
         self.parent_header = msg["header"]
 
